@@ -167,6 +167,17 @@ func run(c *engine.Ctx) {
 									continue
 								}
 								r.one("ml2", prefix+"\""+raw+"\";", kw, want, true)
+								if tr == "" {
+									// a comment that swallows the line break in front of the statement: a line
+									// comment on the line above, a block comment that ends on the statement's line
+									// (the quote column is counted on the statement's own line)
+									r.one("after-comment", "// note\n"+prefix+"\""+raw+"\";", kw, want, true)
+									r.one("after-comment", "  contact x; // note\n"+prefix+"\""+raw+"\";", kw, want, true)
+									lead := "/* a\n   b */ "
+									if want2, ok := yangstr.DecodeDouble(raw, yangstr.Width("   b */ "+prefix)); ok && !adjacentEscape(w1, tr, ind, w2) {
+										r.one("after-comment", lead+prefix+"\""+raw+"\";", kw, want2, true)
+									}
+								}
 								if kw != "m:ext" && tr == "" {
 									// the same raw text occurs earlier in the file in another column
 									r.one("dup", "                contact \""+raw+"\";\n"+prefix+"\""+raw+"\";", kw, want, true)
